@@ -169,8 +169,12 @@ def stencil_cases(tier, Ts, bound=1):
             if not admissible(op, nr_, nt, circles):
                 continue
             k = len(cases)
-            geom, kappa, delta = ol.GEOMS[k % 5]
+            # every geometry of the operator lattice, the tabulated Culham geometry and the orientation-reversing one included (the
+            # input-function objects are part of what the threads share)
+            geom, kappa, delta = ol.GEOMS[k % len(ol.GEOMS)]
             alpha, beta = ol.PROFILES[(k * 3 + 1) % 7]
+            if geom == 3:
+                alpha, beta = 3, 1   # the only profile shipped for Culham
             Rmax = 1.3
             radii = ol.make_radii(nr_, ol.R0S[k % 3], Rmax, ol.R_PATTERNS[k % 5])
             angles = ol.make_angles(nt, ol.T_PATTERNS[(k // 2) % 3])
@@ -186,13 +190,15 @@ def stencil_cases(tier, Ts, bound=1):
 def other_cases(tier, Ts, bound=1, big_stencil=True):
     cases = []
     # level caches (both constructors) and transfers (reference versions are parallel at any size)
-    for i, (nr, nt) in enumerate([(9, 8), (11, 12), (13, 16), (9, 20)]):
+    for i, (nr, nt) in enumerate([(9, 8), (11, 12), (13, 16), (9, 20), (9, 12), (11, 8)]):
         radii = ol.make_radii(nr, 1e-2, 1.3, ol.R_PATTERNS[i % 5])
         angles = ol.make_angles(nt, ol.T_PATTERNS[i % 3])
+        gm = ol.GEOMS[(i + 1) % len(ol.GEOMS)]   # i = 4: Culham, i = 5: the orientation-reversing Shafranov geometry
+        al = 3 if gm[0] == 3 else 2
         for op in ("levelcache", "transfers"):
             for T in Ts:
                 cid = "o%02d_%s_T%d" % (i, op, T)
-                line = ol.case_line(cid, radii, angles, None, ol.GEOMS[(i + 1) % 5][0], ol.GEOMS[(i + 1) % 5][1], ol.GEOMS[(i + 1) % 5][2], 2, 1, 1.3, i % 2, "x") + \
+                line = ol.case_line(cid, radii, angles, None, gm[0], gm[1], gm[2], al, 1, 1.3, i % 2, "x") + \
                     " op=%s T=%d bound=%d perms=%s audit=1" % (op, T, bound, "all" if T <= 3 else "few")
                 cases.append(dict(id=cid, line=line, op=op, T=T, group="o%02d_%s" % (i, op)))
     # transfers above the 10 000-node threshold (their 'if' clause enables the team)
